@@ -5767,7 +5767,12 @@ class PyCdlib:
         pvd.copy(self.pvd)
         self.pvds.append(pvd)
 
-        self._finish_add(self.logical_block_size, 0)
+        if self._has_udf:
+            # On a UDF bridge image the volume descriptors live in the fixed
+            # area in front of extent 32, so the copy takes no additional space.
+            self._finish_add(0, 0)
+        else:
+            self._finish_add(self.logical_block_size, 0)
 
     def set_hidden(self, iso_path=None, rr_path=None, joliet_path=None):
         # type: (Optional[str], Optional[str], Optional[str]) -> None
